@@ -60,7 +60,25 @@ func (a *hAccount) clone() *hAccount {
 	}
 	return b
 }
-func (a *hAccount) GetCodeMetadata() []byte { return nil }
+// loadCopy: what an accounts database hands out on LoadAccount - a NEW object holding the account's current data (the stored values
+// themselves stay shared, see RetrieveValue); nothing written to it reaches the ledger unless it is given back with SaveAccount
+func (a *hAccount) loadCopy() *hAccount {
+	b := &hAccount{w: a.w, addr: a.addr, storage: make(map[string][]byte, len(a.storage)), balance: new(big.Int).Set(a.balance),
+		owner: append([]byte(nil), a.owner...), username: append([]byte(nil), a.username...), devReward: new(big.Int).Set(a.devReward)}
+	for k, v := range a.storage {
+		b.storage[k] = v
+	}
+	return b
+}
+
+// a contract account carries code metadata with the payable bits SET, whatever the payability oracle of the world says about it: the
+// oracle is the only authority on payability (C09 quantifies over all oracles), the metadata of the loaded account is not
+func (a *hAccount) GetCodeMetadata() []byte {
+	if vmcommon.IsSmartContractAddress(a.addr) {
+		return []byte{0x01, 0x06}
+	}
+	return nil
+}
 func (a *hAccount) GetCodeHash() []byte     { return nil }
 func (a *hAccount) GetRootHash() []byte     { return nil }
 func (a *hAccount) AccountDataHandler() vmcommon.AccountDataHandler {
@@ -153,7 +171,16 @@ func (ad *hAccounts) LoadAccount(address []byte) (vmcommon.AccountHandler, error
 	if !inIsPaused() && ad.sh.w.plan.hit("LoadAccount") {
 		return nil, errInjected
 	}
-	return ad.sh.account(address), nil
+	// copy-on-load, as an accounts database behaves: the object handed out is a copy, and only SaveAccount makes its content the
+	// account's content.  The two accounts the node itself passed to the running call are the node's own objects (saved by the node after
+	// the call): loading one of them again gives the same object, not a second competing copy.
+	live := ad.sh.account(address)
+	for _, h := range ad.sh.w.held {
+		if h == live {
+			return live, nil
+		}
+	}
+	return live.loadCopy(), nil
 }
 func (ad *hAccounts) GetExistingAccount(address []byte) (vmcommon.AccountHandler, error) {
 	a, ok := ad.sh.accounts[string(address)]
@@ -162,9 +189,12 @@ func (ad *hAccounts) GetExistingAccount(address []byte) (vmcommon.AccountHandler
 	}
 	return a, nil
 }
-func (ad *hAccounts) SaveAccount(vmcommon.AccountHandler) error {
+func (ad *hAccounts) SaveAccount(h vmcommon.AccountHandler) error {
 	if ad.sh.w.plan.hit("SaveAccount") {
 		return errInjected
+	}
+	if a, ok := h.(*hAccount); ok && a != nil {
+		ad.sh.accounts[string(a.addr)] = a
 	}
 	return nil
 }
@@ -292,6 +322,8 @@ type hWorld struct {
 	gasMap     map[string]map[string]uint64
 	shards     []*hShard
 	plan       *faultPlan
+	earlyGas   []map[string]map[string]uint64 // schedule changes delivered to each factory BEFORE it creates its container
+	held       []*hAccount // the account objects the node handed to the running call (see hAccounts.LoadAccount)
 	inflight   []*hMsg
 	failed     map[int]bool
 	nextID     int
@@ -357,6 +389,9 @@ func (w *hWorld) build() error {
 		f, err := builtInFunctions.NewBuiltInFunctionsFactory(args)
 		if err != nil {
 			return err
+		}
+		for _, g := range w.earlyGas {
+			f.GasScheduleChange(g)
 		}
 		c, err := f.CreateBuiltInFunctionContainer()
 		if err != nil {
@@ -447,12 +482,18 @@ func (w *hWorld) exec(cs *callSpec) *callResult {
 		RecipientAddr: append([]byte(nil), cs.Rcpt...), Function: cs.Fn,
 	}
 	var snd, dst vmcommon.UserAccountHandler
+	w.held = nil
 	if cs.Snd {
-		snd = sh.account(cs.Caller)
+		a := sh.account(cs.Caller)
+		snd = a
+		w.held = append(w.held, a)
 	}
 	if cs.Dst {
-		dst = sh.account(cs.Rcpt)
+		a := sh.account(cs.Rcpt)
+		dst = a
+		w.held = append(w.held, a)
 	}
+	defer func() { w.held = nil }()
 	w.plan = &faultPlan{failAt: cs.FailAt}
 	var ms0, ms1 runtime.MemStats
 	runtime.ReadMemStats(&ms0)
